@@ -1,5 +1,645 @@
 import CpModel.Auth
 import CpModel.AuthPrims
+import CpProofs.C19Lemmas
+/-!
+  C19 — HTTP authentication admits exactly the right credentials.
+
+  Theorems about `CpModel.Auth` (the transcription of `auth_basic.basic_auth` and `auth_digest.digest_auth`).
+  Every theorem quantifies over *all* header strings (`Option (List Char)`), all configurations (realm, key,
+  store, accept_charset), all request methods and clock values, and over **arbitrary** primitives
+  `P : Prims` — the hash `H`, the base64 decoder, the accept_charset codec and NFC are arbitrary functions.
+  "Only the right credentials pass" is therefore the *equality* of the submitted response with the RFC 2617
+  request-digest recomputed from the stored HA1; collision resistance of MD5 is outside any proof.
+
+  False on the unchanged tree (kept as `…_full`, refuted with a concrete witness, proved as `…_partial`):
+  `digest_never_5xx_full` and `digest_complete_full` — `qop=auth-int` ends in `TypeError` (finding F21).
+-/
 namespace CpProofs.C19
-open CpModel.Auth
+open CpModel.Auth CpModel.Gen.C19
+
+deriving instance DecidableEq for Except
+
+/-! ## Basic -/
+
+/-- the credentials test of `checkpassword_dict`: the user is in the store with exactly this, non-empty, password -/
+theorem checkpasswordDict_iff (store : List (Str × Str)) (u p : Str) :
+    checkpasswordDict store u p = true ↔ dictGet u store = some p ∧ p ≠ [] := by
+  unfold checkpasswordDict
+  cases h : dictGet u store with
+  | none => simp
+  | some q =>
+    simp only [Bool.and_eq_true, ne_eq, beq_iff_eq, Option.some.injEq, decide_eq_true_eq]
+    constructor
+    · rintro ⟨h1, rfl⟩; exact ⟨rfl, h1⟩
+    · rintro ⟨rfl, h1⟩; exact ⟨h1, rfl⟩
+
+/-- **C19_basic_sound_complete.**  The handler runs with `login = u` exactly when the header is
+    `<scheme> <params>` (cut at the first space) with `scheme.lower() == 'basic'`, `params` base64-decodes, and the
+    bytes — decoded with the accepted charset, else ISO-8859-1, then NFC-normalised — read `u:p` (cut at the first
+    colon, so `u` has no colon) where the store maps `u` to exactly `p` and `p` is not empty. -/
+theorem basic_sound_complete (P : Prims) (cfg : BasicCfg) (hq : cfg.realm.contains '"' = false)
+    (hdr : Option Str) (u : Str) :
+    basicAuth P cfg hdr = .grant u ↔
+      ∃ h scheme params bytes p,
+        hdr = some h ∧ h = scheme ++ ' ' :: params ∧ ' ' ∉ scheme ∧ pyLower scheme = cs! "basic" ∧
+        P.b64decode params = some bytes ∧
+        P.nfc (tryDecode P bytes) = u ++ ':' :: p ∧ ':' ∉ u ∧
+        dictGet u cfg.store = some p ∧ p ≠ [] := by
+  unfold basicAuth
+  simp only [hq, Bool.false_eq_true, if_false]
+  constructor
+  · intro h
+    split at h
+    · simp at h
+    · rename_i hs
+      split at h
+      · simp at h
+      · rename_i scheme params hsp
+        split at h
+        · rename_i hsch
+          split at h
+          · simp at h
+          · rename_i bytes hb
+            split at h
+            · simp at h
+            · rename_i un pw hup
+              split at h
+              · rename_i hck
+                simp only [Outcome.grant.injEq] at h
+                subst h
+                obtain ⟨e1, e2⟩ := split1_some _ hsp
+                obtain ⟨e3, e4⟩ := split1_some _ hup
+                obtain ⟨e5, e6⟩ := (checkpasswordDict_iff _ _ _).mp hck
+                exact ⟨hs, scheme, params, bytes, pw, rfl, e1, e2, hsch, hb, e3, e4, e5, e6⟩
+              · simp at h
+        · simp at h
+  · rintro ⟨h, scheme, params, bytes, p, rfl, rfl, e2, hsch, hb, e3, e4, e5, e6⟩
+    simp only [split1_of_append scheme params e2, hsch, if_true, hb, e3, split1_of_append u p e4,
+      (checkpasswordDict_iff _ _ _).mpr ⟨e5, e6⟩]
+
+example : basicAuth ⟨id, fun _ => some [97, 58, 98], fun _ => none, id⟩
+    ⟨cs! "R", [(cs! "a", cs! "b")], cs! "utf-8"⟩ (some (cs! "Basic YTpi")) = .grant (cs! "a") := by decide
+
+/-- Every rejection by `basic_auth` is a 401 carrying exactly `Basic realm="<realm>"[, charset="<CHARSET>"]`
+    or a 400; nothing else can happen (the realm being free of double quotes, which `basic_auth` demands). -/
+theorem basic_never_5xx (P : Prims) (cfg : BasicCfg) (hq : cfg.realm.contains '"' = false) (hdr : Option Str) :
+    (∃ u, basicAuth P cfg hdr = .grant u) ∨ basicAuth P cfg hdr = .unauthorized (basicChallenge cfg) ∨
+      basicAuth P cfg hdr = .badRequest := by
+  unfold basicAuth
+  simp only [hq, Bool.false_eq_true, if_false]
+  repeat' split
+  all_goals simp
+
+/-- 400 exactly on the listed parse failures: no space in the header; or, for the Basic scheme, base64 payload
+    that does not decode, or decoded text without a colon. -/
+theorem basic_400_iff (P : Prims) (cfg : BasicCfg) (hq : cfg.realm.contains '"' = false) (hdr : Option Str) :
+    basicAuth P cfg hdr = .badRequest ↔
+      ∃ h, hdr = some h ∧
+        (' ' ∉ h ∨
+         ∃ scheme params, split1 ' ' h = some (scheme, params) ∧ pyLower scheme = cs! "basic" ∧
+           (P.b64decode params = none ∨
+            ∃ bytes, P.b64decode params = some bytes ∧ ':' ∉ P.nfc (tryDecode P bytes))) := by
+  unfold basicAuth
+  simp only [hq, Bool.false_eq_true, if_false]
+  constructor
+  · intro h
+    split at h
+    · simp at h
+    · rename_i hs
+      refine ⟨hs, rfl, ?_⟩
+      split at h
+      · rename_i hn; exact Or.inl ((split1_none _).mp hn)
+      · rename_i scheme params hsp
+        right
+        split at h
+        · rename_i hsch
+          refine ⟨scheme, params, hsp, hsch, ?_⟩
+          split at h
+          · rename_i hb; exact Or.inl hb
+          · rename_i bytes hb
+            right
+            refine ⟨bytes, hb, ?_⟩
+            split at h
+            · rename_i hn; exact (split1_none _).mp hn
+            · split at h <;> simp at h
+        · simp at h
+  · rintro ⟨h, rfl, hcase⟩
+    rcases hcase with hn | ⟨scheme, params, hsp, hsch, hcase⟩
+    · simp [(split1_none _).mpr hn]
+    · simp only [hsp, hsch, if_true]
+      rcases hcase with hb | ⟨bytes, hb, hn⟩
+      · simp [hb]
+      · simp [hb, (split1_none _).mpr hn]
+
+/-- no header, or a scheme other than Basic followed by a space: 401 with the Basic challenge -/
+theorem basic_other_scheme_401 (P : Prims) (cfg : BasicCfg) (hq : cfg.realm.contains '"' = false) :
+    basicAuth P cfg none = .unauthorized (basicChallenge cfg) ∧
+    ∀ scheme params, ' ' ∉ scheme → pyLower scheme ≠ cs! "basic" →
+      basicAuth P cfg (some (scheme ++ ' ' :: params)) = .unauthorized (basicChallenge cfg) := by
+  unfold basicAuth
+  simp only [hq, Bool.false_eq_true, if_false, true_and]
+  intro scheme params h1 h2
+  simp [split1_of_append scheme params h1, h2]
+
+/-- an empty stored password never authenticates (`p and p == password`) -/
+theorem basic_empty_password_never (P : Prims) (cfg : BasicCfg) (hdr : Option Str) (u : Str)
+    (he : dictGet u cfg.store = some []) : basicAuth P cfg hdr ≠ .grant u := by
+  intro h
+  by_cases hq : cfg.realm.contains '"' = false
+  · obtain ⟨_, _, _, _, p, _, _, _, _, _, _, _, e5, e6⟩ := (basic_sound_complete P cfg hq hdr u).mp h
+    rw [he] at e5
+    exact e6 (Option.some.inj e5).symm
+  · unfold basicAuth at h
+    simp only [Bool.not_eq_false] at hq
+    rw [if_pos hq] at h
+    simp at h
+
+/-! ## Digest -/
+
+/-- `':'.join(parts)` -/
+def joinColon : List Str → Str
+  | [] => []
+  | [x] => x
+  | x :: y :: rest => x ++ ':' :: joinColon (y :: rest)
+
+/-- RFC 2617 3.2.2.1–3.2.2.3, written independently of the model's `requestDigest`:
+    request-digest = KD(H(A1), nonce [":" nc ":" cnonce ":" qop] ":" H(A2)) with A2 = method ":" uri and, for
+    MD5-sess, H(A1) = H(HA1 ":" nonce ":" cnonce). -/
+def rfcDigest (P : Prims) (a : Auth) (method ha1 : Str) : Str :=
+  let nonce := fmtOpt a.nonce
+  let hA2 := P.H (joinColon [method, fmtOpt a.uri])
+  let hA1 := if a.algorithm = cs! "MD5-SESS" then P.H (joinColon [ha1, nonce, fmtOpt a.cnonce]) else ha1
+  match a.qop with
+  | none => P.H (joinColon [hA1, nonce, hA2])
+  | some q => P.H (joinColon [hA1, nonce, fmtOpt a.nc, fmtOpt a.cnonce, q, hA2])
+
+/-- for a validated header whose qop is not auth-int the code computes exactly the RFC request-digest -/
+theorem requestDigest_eq_rfc (P : Prims) (a : Auth) (v : Valid a) (hq : a.qop ≠ some (cs! "auth-int"))
+    (method ha1 : Str) : requestDigest P a method ha1 = .ok (rfcDigest P a method ha1) := by
+  unfold requestDigest ha2 rfcDigest
+  rcases v.qop with ⟨hn, _, _⟩ | ⟨hq2 | hq2, _, _⟩
+  · simp [hn, truthy, joinColon, colon]
+  · simp [hq2, truthy, joinColon, colon, fmtOpt]
+  · exact absurd hq2 hq
+
+/-- for qop=auth-int the code raises `TypeError` (F21) -/
+theorem requestDigest_authint (P : Prims) (a : Auth) (hq : a.qop = some (cs! "auth-int")) (method ha1 : Str) :
+    requestDigest P a method ha1 = .error .typeError := by
+  unfold requestDigest ha2
+  simp [hq]
+
+/-- the two challenges differ (so the stale flag can be read off the outcome) -/
+theorem challenge_stale_ne (P : Prims) (cfg : DigestCfg) (now : Int) :
+    digestChallenge P cfg now true ≠ digestChallenge P cfg now false := by
+  unfold digestChallenge
+  intro h
+  have := congrArg List.length h
+  simp at this
+  omega
+
+/-- everything `digest_auth` checks before it lets a request through -/
+structure Accepts (P : Prims) (cfg : DigestCfg) (method : Str) (now : Int) (h : Str) (a : Auth) (u : Str) : Prop where
+  /-- the header parses and passes the constructor's checks -/
+  parsed : parseAuth P h = .ok a
+  valid : Valid a
+  user : a.username = some u
+  /-- the qop is one the tool can compute -/
+  qop : a.qop = none ∨ a.qop = some (cs! "auth")
+  /-- the nonce is `ts:H(ts:realm:key)` for the **server's** realm and key … -/
+  nonce : ∃ ts t, ':' ∉ ts ∧ a.nonce = some (synthesizeNonce P cfg.realm cfg.key ts) ∧
+    /- … with a timestamp that has not expired -/
+    pyInt ts = some t ∧ t + 600 > now
+  /-- the store knows the user, and the response is the RFC 2617 request-digest recomputed from the **stored**
+      HA1, the **request's** method and the header's uri / nonce / nc / cnonce / qop / algorithm -/
+  digest : ∃ ha1, getHa1 P cfg u = some ha1 ∧ a.response = some (rfcDigest P a method ha1)
+
+theorem fmtOpt_of_truthy {o : Option Str} (h : truthy o = true) : o = some (fmtOpt o) := by
+  obtain ⟨s, rfl, _⟩ := (truthy_iff o).mp h
+  rfl
+
+theorem parseAuth_valid (P : Prims) (h : Str) (a : Auth) (hp : parseAuth P h = .ok a) : Valid a := by
+  unfold parseAuth at hp
+  split at hp
+  · simp at hp
+  · split at hp
+    · simp at hp
+    · split at hp
+      · simp at hp
+      · split at hp
+        · simp at hp
+        · obtain ⟨rfl, v⟩ := (validateFields_ok_iff _ _).mp hp
+          exact v
+
+theorem synthesizeNonce_split (P : Prims) (s key ts : Str) (h : ':' ∉ ts) :
+    split1 ':' (synthesizeNonce P s key ts) = some (ts, P.H (colon ts (colon s key))) := by
+  unfold synthesizeNonce colon
+  exact split1_of_append _ _ h
+
+/-- **C19_digest_sound** and **C19_digest_complete** in one statement: the handler runs with `login = u`
+    *exactly* when the header parses, names `u`, carries a nonce this server's `synthesize_nonce` produces for its
+    own realm and key with an unexpired timestamp, and its `response` equals the RFC 2617 request-digest recomputed
+    from the HA1 the store holds for `u`, the request's method and the header's fields (qop absent or `auth`,
+    algorithm MD5 or MD5-sess).  `H` is arbitrary. -/
+theorem digest_grant_iff (P : Prims) (cfg : DigestCfg) (method : Str) (now : Int) (hdr : Option Str) (u : Str) :
+    digestAuth P cfg method now hdr = .grant u ↔
+      ∃ h a, hdr = some h ∧ Accepts P cfg method now h a u := by
+  constructor
+  · intro hg
+    cases hdr with
+    | none =>
+      simp [digestAuth, digestMatches, beforeSpace, pyLower, respond401] at hg
+    | some h =>
+      simp only [digestAuth, Option.getD_some] at hg
+      split at hg
+      · simp [respond401] at hg
+      · split at hg
+        · split at hg <;> simp at hg
+        · rename_i a hp
+          have v := parseAuth_valid P h a hp
+          have hn := fmtOpt_of_truthy v.nonce
+          have hu := fmtOpt_of_truthy v.username
+          have hr := fmtOpt_of_truthy v.response
+          split at hg
+          · simp [respond401] at hg
+          · rename_i hvn
+            have hvn := Decidable.not_not.mp hvn
+            obtain ⟨ts, hts, hnonce⟩ := (validateNonce_iff P _ _ _).mp hvn
+            split at hg
+            · simp [respond401] at hg
+            · rename_i ha1v hget
+              by_cases hq : a.qop = some (cs! "auth-int")
+              · rw [requestDigest_authint P a hq] at hg
+                simp at hg
+              · rw [requestDigest_eq_rfc P a v hq] at hg
+                simp only at hg
+                split at hg
+                · simp [respond401] at hg
+                · rename_i hdig
+                  have hdig := Decidable.not_not.mp hdig
+                  split at hg
+                  · simp [respond401] at hg
+                  · rename_i hst
+                    simp only [Bool.not_eq_true] at hst
+                    obtain ⟨ts', rest, t, hs1, hs2, hs3⟩ := (isNonceStale_false_iff _ _ _).mp hst
+                    simp only [Outcome.grant.injEq] at hg
+                    rw [hnonce, synthesizeNonce_split P _ _ ts hts] at hs1
+                    simp only [Option.some.injEq, Prod.mk.injEq] at hs1
+                    obtain ⟨rfl, _⟩ := hs1
+                    refine ⟨h, a, rfl, ⟨hp, v, by rw [hu, hg], ?_, ⟨ts, t, hts, by rw [hn, hnonce], hs2, by simpa using hs3⟩,
+                      ⟨ha1v, by rw [← hg]; exact hget, by rw [hr, ← hdig]⟩⟩⟩
+                    rcases v.qop with ⟨h1, _, _⟩ | ⟨h1 | h1, _, _⟩
+                    · exact Or.inl h1
+                    · exact Or.inr h1
+                    · exact absurd h1 hq
+  · rintro ⟨h, a, rfl, acc⟩
+    obtain ⟨ts, t, hts, hnonce, hint, hfresh⟩ := acc.nonce
+    obtain ⟨ha1, hget, hresp⟩ := acc.digest
+    have hm : digestMatches h = true := by
+      have hp := acc.parsed
+      unfold parseAuth at hp
+      split at hp
+      · simp at hp
+      · rename_i hm; exact Decidable.not_not.mp hm
+    have hq : a.qop ≠ some (cs! "auth-int") := by
+      rcases acc.qop with h1 | h1 <;> rw [h1] <;> decide
+    have hvn : validateNonce P (fmtOpt a.nonce) cfg.realm cfg.key = true :=
+      (validateNonce_iff P _ _ _).mpr ⟨ts, hts, by rw [hnonce]; rfl⟩
+    have hst : isNonceStale (fmtOpt a.nonce) 600 now = false :=
+      (isNonceStale_false_iff _ _ _).mpr ⟨ts, _, t, by rw [hnonce]; exact synthesizeNonce_split P _ _ ts hts, hint,
+        by simpa using hfresh⟩
+    have hfu : fmtOpt a.username = u := by rw [acc.user]; rfl
+    have hfr : fmtOpt a.response = rfcDigest P a method ha1 := by rw [hresp]; rfl
+    simp only [digestAuth, Option.getD_some, hm, not_true_eq_false, if_false, acc.parsed, hvn, hfu, hfr,
+      hget, requestDigest_eq_rfc P a acc.valid hq, ne_eq, not_true_eq_false, hst, Bool.false_eq_true]
+
+/-- **C19_digest_sound** (the "only if" half, spelled out): a granted request proves all of `Accepts`. -/
+theorem digest_sound (P : Prims) (cfg : DigestCfg) (method : Str) (now : Int) (hdr : Option Str) (u : Str)
+    (hg : digestAuth P cfg method now hdr = .grant u) :
+    ∃ h a ha1 ts t, hdr = some h ∧ parseAuth P h = .ok a ∧ a.username = some u ∧
+      getHa1 P cfg u = some ha1 ∧
+      a.nonce = some (ts ++ ':' :: P.H (joinColon [ts, cfg.realm, cfg.key])) ∧ ':' ∉ ts ∧
+      pyInt ts = some t ∧ t + 600 > now ∧
+      a.response = some (rfcDigest P a method ha1) ∧
+      (a.qop = none ∨ a.qop = some (cs! "auth")) ∧
+      (a.algorithm = cs! "MD5" ∨ a.algorithm = cs! "MD5-SESS") := by
+  obtain ⟨h, a, rfl, acc⟩ := (digest_grant_iff P cfg method now hdr u).mp hg
+  obtain ⟨ts, t, hts, hnonce, hint, hfresh⟩ := acc.nonce
+  obtain ⟨ha1, hget, hresp⟩ := acc.digest
+  exact ⟨h, a, ha1, ts, t, rfl, acc.parsed, acc.user, hget, hnonce, hts, hint, hfresh, hresp, acc.qop, acc.valid.alg⟩
+
+/-- **C19_digest_complete**: qop absent or `auth`, MD5 or MD5-sess — a parsed header with a genuine fresh nonce and
+    the RFC response for the stored HA1 is let through with `login = username`. -/
+theorem digest_complete (P : Prims) (cfg : DigestCfg) (method : Str) (now : Int) (h : Str) (a : Auth)
+    (u ha1 ts : Str) (t : Int)
+    (hp : parseAuth P h = .ok a) (hu : a.username = some u)
+    (hq : a.qop = none ∨ a.qop = some (cs! "auth"))
+    (hget : getHa1 P cfg u = some ha1)
+    (hnonce : a.nonce = some (synthesizeNonce P cfg.realm cfg.key ts)) (hts : ':' ∉ ts)
+    (hint : pyInt ts = some t) (hfresh : t + 600 > now)
+    (hresp : a.response = some (rfcDigest P a method ha1)) :
+    digestAuth P cfg method now (some h) = .grant u :=
+  (digest_grant_iff P cfg method now (some h) u).mpr
+    ⟨h, a, rfl, ⟨hp, parseAuth_valid P h a hp, hu, hq, ⟨ts, t, hts, hnonce, hint, hfresh⟩, ⟨ha1, hget, hresp⟩⟩⟩
+
+/-! ### rejections -/
+
+theorem parseKeqvList_error (l : List Str) (e : Exc) (h : parseKeqvList l = .error e) :
+    e = .valueError ∨ e = .indexError := by
+  induction l with
+  | nil => simp [parseKeqvList] at h
+  | cons x xs ih =>
+    simp only [parseKeqvList] at h
+    split at h
+    · rename_i x' hx
+      simp only [Except.error.injEq] at h
+      subst h
+      unfold parseKeqv1 at hx
+      split at hx
+      · simp only [Except.error.injEq] at hx; exact Or.inl hx.symm
+      · split at hx
+        · simp only [Except.error.injEq] at hx; exact Or.inr hx.symm
+        · split at hx <;> simp at hx
+    · split at h
+      · rename_i x' hx
+        simp only [Except.error.injEq] at h
+        subst h
+        exact ih hx
+      · simp at h
+
+/-- the header parser fails only with `ValueError` or `IndexError` — both are answered with 400 -/
+theorem parseAuth_error (P : Prims) (h : Str) (e : Exc) (hp : parseAuth P h = .error e) : handled400 e = true := by
+  have key : e = .valueError ∨ e = .indexError := by
+    unfold parseAuth at hp
+    split at hp
+    · simp only [Except.error.injEq] at hp; exact Or.inl hp.symm
+    · split at hp
+      · simp only [Except.error.injEq] at hp; exact Or.inl hp.symm
+      · split at hp
+        · simp only [Except.error.injEq] at hp; exact Or.inl hp.symm
+        · split at hp
+          · rename_i x hx
+            simp only [Except.error.injEq] at hp
+            subst hp
+            exact parseKeqvList_error _ _ hx
+          · left
+            unfold validateFields at hp
+            repeat' split at hp
+            all_goals simp_all
+  rcases key with rfl | rfl <;> rfl
+
+/-- 400 exactly when the scheme is Digest and the header does not parse / fails the constructor's checks -/
+theorem digest_400_iff (P : Prims) (cfg : DigestCfg) (method : Str) (now : Int) (hdr : Option Str) :
+    digestAuth P cfg method now hdr = .badRequest ↔
+      ∃ h e, hdr = some h ∧ digestMatches h = true ∧ parseAuth P h = .error e := by
+  constructor
+  · intro hg
+    cases hdr with
+    | none => simp [digestAuth, digestMatches, beforeSpace, pyLower, respond401] at hg
+    | some h =>
+      simp only [digestAuth, Option.getD_some] at hg
+      split at hg
+      · simp [respond401] at hg
+      · rename_i hm
+        split at hg
+        · rename_i e he; exact ⟨h, e, rfl, Decidable.not_not.mp hm, he⟩
+        · exfalso
+          revert hg
+          simp only [respond401]
+          repeat' split
+          all_goals simp
+  · rintro ⟨h, e, rfl, hm, he⟩
+    simp [digestAuth, hm, he, parseAuth_error P h e he]
+
+/-- no header, or a scheme other than Digest: 401 with a fresh, non-stale challenge -/
+theorem digest_other_scheme_401 (P : Prims) (cfg : DigestCfg) (method : Str) (now : Int) :
+    digestAuth P cfg method now none = respond401 P cfg now false ∧
+    ∀ h, digestMatches h = false → digestAuth P cfg method now (some h) = respond401 P cfg now false := by
+  constructor
+  · simp [digestAuth, digestMatches, beforeSpace, pyLower]
+  · intro h hm
+    simp [digestAuth, hm]
+
+/-- **C19_stale.**  The answer is the 401 challenge *with* `stale="true"` exactly when the header parses, its nonce
+    is genuine (validates against the server's realm and key), the user is known, the response equals the RFC
+    request-digest for the stored HA1 — and the nonce's timestamp has expired (or is not an integer). -/
+theorem digest_stale_iff (P : Prims) (cfg : DigestCfg) (method : Str) (now : Int) (hdr : Option Str) :
+    digestAuth P cfg method now hdr = respond401 P cfg now true ↔
+      ∃ h a ha1, hdr = some h ∧ parseAuth P h = .ok a ∧ a.qop ≠ some (cs! "auth-int") ∧
+        validateNonce P (fmtOpt a.nonce) cfg.realm cfg.key = true ∧
+        getHa1 P cfg (fmtOpt a.username) = some ha1 ∧
+        fmtOpt a.response = rfcDigest P a method ha1 ∧
+        isNonceStale (fmtOpt a.nonce) 600 now = true := by
+  have hne : respond401 P cfg now false ≠ respond401 P cfg now true := by
+    simp only [respond401, ne_eq, Outcome.unauthorized.injEq]
+    exact fun h => challenge_stale_ne P cfg now h.symm
+  constructor
+  · intro hg
+    cases hdr with
+    | none =>
+      rw [(digest_other_scheme_401 P cfg method now).1] at hg
+      exact absurd hg hne
+    | some h =>
+      simp only [digestAuth, Option.getD_some] at hg
+      split at hg
+      · exact absurd hg hne
+      · split at hg
+        · split at hg <;> simp [respond401] at hg
+        · rename_i a hp
+          have v := parseAuth_valid P h a hp
+          split at hg
+          · exact absurd hg hne
+          · rename_i hvn
+            split at hg
+            · exact absurd hg hne
+            · rename_i ha1 hget
+              by_cases hq : a.qop = some (cs! "auth-int")
+              · rw [requestDigest_authint P a hq] at hg
+                simp [respond401] at hg
+              · rw [requestDigest_eq_rfc P a v hq] at hg
+                simp only at hg
+                split at hg
+                · exact absurd hg hne
+                · rename_i hdig
+                  split at hg
+                  · rename_i hst
+                    exact ⟨h, a, ha1, rfl, hp, hq, Decidable.not_not.mp hvn, hget,
+                      (Decidable.not_not.mp hdig).symm, hst⟩
+                  · simp [respond401] at hg
+  · rintro ⟨h, a, ha1, rfl, hp, hq, hvn, hget, hdig, hst⟩
+    have hm : digestMatches h = true := by
+      unfold parseAuth at hp
+      split at hp
+      · simp at hp
+      · rename_i hm; exact Decidable.not_not.mp hm
+    simp only [digestAuth, Option.getD_some, hm, not_true_eq_false, if_false, hp, hvn, hget,
+      requestDigest_eq_rfc P a (parseAuth_valid P h a hp) hq, hdig, ne_eq, hst, if_true]
+
+/-- a forged or foreign nonce (one that does not validate against this server's realm and key) is never
+    answered with `stale="true"`, whatever its timestamp says -/
+theorem digest_forged_nonce_never_stale (P : Prims) (cfg : DigestCfg) (method : Str) (now : Int) (h : Str) (a : Auth)
+    (hp : parseAuth P h = .ok a) (hv : validateNonce P (fmtOpt a.nonce) cfg.realm cfg.key = false) :
+    digestAuth P cfg method now (some h) = respond401 P cfg now false := by
+  have hm : digestMatches h = true := by
+    unfold parseAuth at hp
+    split at hp
+    · simp at hp
+    · rename_i hm; exact Decidable.not_not.mp hm
+  simp [digestAuth, hm, hp, hv]
+
+/-- … and so is a wrong digest or an unknown user, even over a genuine expired nonce -/
+theorem digest_wrong_response_401 (P : Prims) (cfg : DigestCfg) (method : Str) (now : Int) (h : Str) (a : Auth)
+    (hp : parseAuth P h = .ok a) (hq : a.qop ≠ some (cs! "auth-int"))
+    (hw : ∀ ha1, getHa1 P cfg (fmtOpt a.username) = some ha1 → fmtOpt a.response ≠ rfcDigest P a method ha1) :
+    digestAuth P cfg method now (some h) = respond401 P cfg now false := by
+  have hm : digestMatches h = true := by
+    unfold parseAuth at hp
+    split at hp
+    · simp at hp
+    · rename_i hm; exact Decidable.not_not.mp hm
+  simp only [digestAuth, Option.getD_some, hm, not_true_eq_false, if_false, hp]
+  split
+  · rfl
+  · split
+    · rfl
+    · rename_i ha1 hget
+      rw [requestDigest_eq_rfc P a (parseAuth_valid P h a hp) hq]
+      simp only
+      rw [if_pos (fun e => hw ha1 hget e.symm)]
+
+/-! ### 5xx -/
+
+/-- an exception escapes `digest_auth` exactly in the F21 situation: `qop=auth-int` on a header that parses, with a
+    genuine nonce and a known user — and then it is the `TypeError` of hashing the `RequestBody` object -/
+theorem digest_error_iff (P : Prims) (cfg : DigestCfg) (method : Str) (now : Int) (hdr : Option Str) (e : Exc) :
+    digestAuth P cfg method now hdr = .error e ↔
+      e = .typeError ∧ ∃ h a ha1, hdr = some h ∧ parseAuth P h = .ok a ∧ a.qop = some (cs! "auth-int") ∧
+        validateNonce P (fmtOpt a.nonce) cfg.realm cfg.key = true ∧
+        getHa1 P cfg (fmtOpt a.username) = some ha1 := by
+  constructor
+  · intro hg
+    cases hdr with
+    | none => simp [digestAuth, digestMatches, beforeSpace, pyLower, respond401] at hg
+    | some h =>
+      simp only [digestAuth, Option.getD_some] at hg
+      split at hg
+      · simp [respond401] at hg
+      · split at hg
+        · rename_i x hx
+          rw [if_pos (parseAuth_error P h x hx)] at hg
+          simp at hg
+        · rename_i a hp
+          have v := parseAuth_valid P h a hp
+          split at hg
+          · simp [respond401] at hg
+          · rename_i hvn
+            split at hg
+            · simp [respond401] at hg
+            · rename_i ha1 hget
+              by_cases hq : a.qop = some (cs! "auth-int")
+              · rw [requestDigest_authint P a hq] at hg
+                simp only [Outcome.error.injEq] at hg
+                exact ⟨hg.symm, h, a, ha1, rfl, hp, hq, Decidable.not_not.mp hvn, hget⟩
+              · rw [requestDigest_eq_rfc P a v hq] at hg
+                simp only at hg
+                repeat' split at hg
+                all_goals simp [respond401] at hg
+  · rintro ⟨rfl, h, a, ha1, rfl, hp, hq, hvn, hget⟩
+    have hm : digestMatches h = true := by
+      unfold parseAuth at hp
+      split at hp
+      · simp at hp
+      · rename_i hm; exact Decidable.not_not.mp hm
+    simp [digestAuth, hm, hp, hvn, hget, requestDigest_authint P a hq]
+
+/-- the statement "never 5xx" at full strength … -/
+def digest_never_5xx_full : Prop :=
+  ∀ (P : Prims) (cfg : DigestCfg) (method : Str) (now : Int) (hdr : Option Str) (e : Exc),
+    digestAuth P cfg method now hdr ≠ .error e
+
+/-- the F21 witness: identity "hash", realm `R`, key `K`, user `u`; nonce `1:1:R:K` is genuine for that hash -/
+def f21P : Prims := ⟨id, fun _ => none, fun _ => none, id⟩
+def f21Cfg : DigestCfg := ⟨cs! "R", cs! "K", .plain [(cs! "u", cs! "p")], cs! "utf-8"⟩
+def f21Hdr : Str :=
+  cs! "Digest username=\"u\", realm=\"R\", nonce=\"1:1:R:K\", uri=\"/\", response=\"x\", qop=auth-int, nc=1, cnonce=\"c\""
+
+/-- … is false on the unchanged tree (F21): `qop=auth-int` → `TypeError` → 500 -/
+theorem digest_never_5xx_full_false : ¬ digest_never_5xx_full := by
+  intro h
+  exact h f21P f21Cfg (cs! "POST") 5 (some f21Hdr) .typeError (by decide +kernel)
+
+/-- … and true for every header whose qop is not auth-int -/
+theorem digest_never_5xx_partial (P : Prims) (cfg : DigestCfg) (method : Str) (now : Int) (hdr : Option Str)
+    (hq : ∀ h a, hdr = some h → parseAuth P h = .ok a → a.qop ≠ some (cs! "auth-int")) (e : Exc) :
+    digestAuth P cfg method now hdr ≠ .error e := by
+  intro hg
+  obtain ⟨_, h, a, _, rfl, hp, hqa, _, _⟩ := (digest_error_iff P cfg method now hdr e).mp hg
+  exact hq h a rfl hp hqa
+
+/-- completeness at full strength: *every* qop of RFC 2617, auth-int included -/
+def digest_complete_full : Prop :=
+  ∀ (P : Prims) (cfg : DigestCfg) (method : Str) (now : Int) (h : Str) (a : Auth) (u ha1 ts : Str) (t : Int),
+    parseAuth P h = .ok a → a.username = some u → getHa1 P cfg u = some ha1 →
+    a.nonce = some (synthesizeNonce P cfg.realm cfg.key ts) → ':' ∉ ts → pyInt ts = some t → t + 600 > now →
+    ∃ login, digestAuth P cfg method now (some h) = .grant login ∨
+      (∀ ha1, getHa1 P cfg u = some ha1 → a.response ≠ some (rfcDigest P a method ha1)) ∧
+        digestAuth P cfg method now (some h) = respond401 P cfg now false
+
+/-- false on the unchanged tree: for auth-int neither happens, the request dies with `TypeError` (F21) -/
+theorem digest_complete_full_false : ¬ digest_complete_full := by
+  intro h
+  obtain ⟨login, hl⟩ := h f21P f21Cfg (cs! "POST") 5 f21Hdr
+    { realm := some (cs! "R"), username := some (cs! "u"), nonce := some (cs! "1:1:R:K"), uri := some (cs! "/"),
+      response := some (cs! "x"), algorithm := cs! "MD5", cnonce := some (cs! "c"), qop := some (cs! "auth-int"),
+      nc := some (cs! "1") }
+    (cs! "u") (cs! "u:R:p") (cs! "1") 1 (by decide +kernel) rfl (by decide +kernel) (by decide +kernel) (by decide +kernel) (by decide +kernel) (by decide +kernel)
+  have he : digestAuth f21P f21Cfg (cs! "POST") 5 (some f21Hdr) = .error .typeError := by decide +kernel
+  rw [he] at hl
+  rcases hl with hl | ⟨_, hl⟩
+  · simp at hl
+  · simp [respond401] at hl
+
+/-! ### the repaired behaviours, as theorems about the model -/
+
+/-- `algorithm=MD5-sess` (any case) is recognised, and selects the session variant of H(A1) -/
+theorem md5_sess_recognised :
+    (validAlgorithms.map pyUpper).contains (pyUpper (cs! "MD5-sess")) = true ∧
+    (validAlgorithms.map pyUpper).contains (pyUpper (cs! "md5")) = true ∧
+    pyUpper (cs! "MD5-sess") = cs! "MD5-SESS" := by decide +kernel
+
+/-- after the constructor's checks `HA2` can no longer hit its `Unrecognized value for qop!` branch
+    (an empty `qop=""` is rejected with 400 up front) -/
+theorem ha2_no_valueError (P : Prims) (a : Auth) (v : Valid a) (method : Str) : ha2 P a method ≠ .error .valueError := by
+  unfold ha2
+  rcases v.qop with ⟨h, _, _⟩ | ⟨h | h, _, _⟩ <;> simp [h]
+
+set_option maxRecDepth 4000 in
+/-- a header with `qop=""` is answered with 400 -/
+example : digestAuth f21P f21Cfg (cs! "GET") 5
+    (some (cs! "Digest username=\"u\", realm=\"R\", nonce=\"1:1:R:K\", uri=\"/\", response=\"x\", qop=\"\"")) = .badRequest := by
+  decide
+
+/-- a parameter with an empty unquoted value (`IndexError` in `parse_keqv_list`) is answered with 400 -/
+example : digestAuth f21P f21Cfg (cs! "GET") 5 (some (cs! "Digest a=")) = .badRequest := by decide +kernel
+
+/-! ### non-vacuity: a header that meets every hypothesis of `digest_complete` / `Accepts` -/
+
+def okHdr : Str :=
+  cs! "Digest username=\"u\", realm=\"R\", nonce=\"1:1:R:K\", uri=\"/\", response=\"u:R:p:1:1:R:K:1:c:auth:GET:/\", qop=auth, nc=1, cnonce=\"c\""
+
+example : digestAuth f21P f21Cfg (cs! "GET") 5 (some okHdr) = .grant (cs! "u") := by decide +kernel
+/-- the same header 600 s later: stale -/
+example : digestAuth f21P f21Cfg (cs! "GET") 601 (some okHdr) = respond401 f21P f21Cfg 601 true := by decide +kernel
+/-- the same header sent with another method: plain 401 -/
+example : digestAuth f21P f21Cfg (cs! "POST") 5 (some okHdr) = respond401 f21P f21Cfg 5 false := by decide +kernel
+
+/-! ### tool registration (generated from the live `cherrypy.tools`) -/
+
+/-- both tools are hooked at `before_handler` with priority 1 and call the anchored functions -/
+theorem tools_hooked :
+    toolBasic = (cs! "before_handler", 1) ∧ toolDigest = (cs! "before_handler", 1) ∧ toolCallables = (true, true) := by
+  decide
+
+/-- the nonce lifetime `digest_auth` passes is the documented default of `is_nonce_stale` -/
+theorem lifetime_default : maxAgeDefault = 600 := by decide +kernel
+
 end CpProofs.C19
